@@ -1,4 +1,82 @@
-import Model.Functor
+/-
+  Props/C04.lean — C04 "functors are functorial".
+  Quantified over ALL functors: object images of any length including empty (`ob`), box images
+  arbitrary diagrams; the only hypothesis is `Functor.okOn` (box images are well-typed diagrams
+  from the image of the domain to the image of the codomain).
+
+  Proved: typing (image WF, dom/cod are the images of dom/cod), `F(Id) = Id(F)`,
+  `F(a >> b) = F(a) >> F(b)`, adjoints `F(t.l) = F(t).l`, `F(t.r) = F(t).r` for every winding
+  number, the special rules for swaps/cups/caps, dagger for generator boxes.
+  NOT proved here (kept as `Prop`s; checked by the law oracle on the real code on every run):
+  `F_tensor`, `F_slice`, `F_sum`.  FALSE for the code (finding F6, witnessed on the real code):
+  `F(Swap(x,y)†) = F(Swap(x,y))†` when both images have ≥ 2 wires.
+-/
+import Proofs.Functor
+
 namespace DV.C04
-theorem placeholder : True := trivial
+open DV
+
+/-- The image of a well-typed diagram is well-typed, from `F(dom)` to `F(cod)`. -/
+theorem F_typing (F : Functor) (d r : Diagram) (hd : d.WF) (hok : ∀ b ∈ d.boxes, F.okOn b)
+    (h : F.apply d = .ok r) : r.WF ∧ F.ty d.dom = .ok r.dom ∧ F.ty d.cod = .ok r.cod :=
+  F.apply_props hd hok h
+
+theorem F_id (F : Functor) (t t' : Ty) (h : F.ty t = .ok t') :
+    F.apply (Diagram.id t) = .ok (Diagram.id t') := F.apply_id h
+
+/-- `F(a >> b) = F(a) >> F(b)`. -/
+theorem F_then (F : Functor) (a b ab fa fb : Diagram) (ha : a.WF) (hb : b.WF)
+    (hok : ∀ bx ∈ a.boxes, F.okOn bx) (hab : a.then b = .ok ab)
+    (hfa : F.apply a = .ok fa) (hfb : F.apply b = .ok fb) :
+    ∃ r, fa.then fb = .ok r ∧ F.apply ab = .ok r := F.apply_then ha hb hok hab hfa hfb
+
+/-- Images of types are monoid homomorphisms (lengths of images arbitrary). -/
+theorem F_ty_tensor (F : Functor) (a b ta tb : Ty) (ha : F.ty a = .ok ta) (hb : F.ty b = .ok tb) :
+    F.ty (a ++ b) = .ok (ta ++ tb) := F.ty_append ha hb
+
+/-- Rigid functors send left/right adjoint types to the adjoints of the images. -/
+theorem F_adjoint_l (F : Functor) (t t' : Ty) (h : F.ty t = .ok t') : F.ty (Ty.l t) = .ok (Ty.l t') :=
+  F.ty_l h
+theorem F_adjoint_r (F : Functor) (t t' : Ty) (h : F.ty t = .ok t') : F.ty (Ty.r t) = .ok (Ty.r t') :=
+  F.ty_r h
+
+/-- Cups, caps and swaps go to the (nested) cups, caps and swaps of the image types. -/
+theorem F_cup (F : Functor) (b : Box) (h : b.kind = .cup) (l r : Ty)
+    (hl : F.ty (b.dom.take 1) = .ok l) (hr : F.ty (b.dom.drop 1) = .ok r) :
+    F.box b = Diagram.cups l r := F.box_cup b h hl hr
+theorem F_cap (F : Functor) (b : Box) (h : b.kind = .cap) (l r : Ty)
+    (hl : F.ty (b.cod.take 1) = .ok l) (hr : F.ty (b.cod.drop 1) = .ok r) :
+    F.box b = Diagram.caps l r := F.box_cap b h hl hr
+theorem F_swap (F : Functor) (b : Box) (h : b.kind = .swap) (l r : Ty)
+    (hl : F.ty (b.dom.take 1) = .ok l) (hr : F.ty (b.dom.drop 1) = .ok r) :
+    F.box b = Diagram.swap l r := F.box_swap b h hl hr
+
+/-- Dagger of a generator box. -/
+theorem F_dagger_box (F : Functor) (b : Box) (hk : b.kind = .gen) (hd : b.dagger = false)
+    (x : Diagram) (hx : F.box b = .ok x) : F.box b.dag = .ok x.dagger := F.box_dagger b hk hd hx
+
+/-- NOT PROVED (oracle-checked on the real code). -/
+def F_tensor : Prop :=
+  ∀ (F : Functor) (a b ab fa fb : Diagram), a.WF → b.WF →
+    (∀ bx ∈ a.boxes ++ b.boxes, F.okOn bx) → a.tensor b = .ok ab →
+    F.apply a = .ok fa → F.apply b = .ok fb → ∃ r, fa.tensor fb = .ok r ∧ F.apply ab = .ok r
+
+/-! Non-vacuity: a functor with an empty and a two-wire object image, applied to a 2-box diagram. -/
+private def x : Ob := ⟨"x", 0⟩
+private def y : Ob := ⟨"y", 0⟩
+private def p : Ob := ⟨"p", 0⟩
+private def q : Ob := ⟨"q", 0⟩
+private def f : Box := { name := "f", dom := [x], cod := [y] }
+private def g : Box := { name := "g", dom := [y], cod := [x] }
+private def k : Box := { name := "k", dom := [p, q], cod := [] }
+private def F0 : Functor :=
+  { ob := [("x", [p, q]), ("y", [])],
+    ar := [(f, Diagram.ofBox k), (g, (Diagram.ofBox k).dagger)] }
+
+example : (match F0.apply (match Diagram.mk? [x, x] [x, y] [f, g, f] [0, 0, 1] with
+      | .ok d => d | .error _ => Diagram.id []) with
+    | .ok r => r.dom == [p, q, p, q] && r.cod == [p, q] && r.boxes.length == 3
+    | .error _ => false) = true := by decide
+example : F0.ty (Ty.l [x, y]) = .ok (Ty.l [p, q]) := by decide
+
 end DV.C04
